@@ -57,8 +57,13 @@ template<class S,class Tg> void c07_inner(hx::Rec<S>& R){
   // positive definiteness: a^T W a >= lambda |a|^2 with lambda = 1 (every generator has Frobenius norm >= 1 and W is diagonal for all provided groups)
   R.le("posdef", a.coeffs().squaredNorm(), a.squaredWeightedNorm());
 }
+#define GENIDX(NAME, IDX, NOTE_) template<class S,class Tg> void c07_genidx_##NAME(hx::Rec<S>& R){ typedef typename Tg::template T<S> T; R.note(NOTE_,"1"); auto Gm=T::Generator(IDX); R.out("g00",Gm(0,0)); }
+GENIDX(m1, -1, "mustraise") GENIDX(dof, Tg::DoF, "mustraise") GENIDX(dofp1, Tg::DoF+1, "mustraise") GENIDX(intmax, 2147483647, "mustraise") GENIDX(intmin, (-2147483647-1), "mustraise") GENIDX(last, Tg::DoF-1, "noraise") GENIDX(first, 0, "noraise")
+ENTRY_T(c07_genidx_m1, TAG) ENTRY_T(c07_genidx_dof, TAG) ENTRY_T(c07_genidx_dofp1, TAG) ENTRY_T(c07_genidx_intmax, TAG) ENTRY_T(c07_genidx_intmin, TAG) ENTRY_T(c07_genidx_last, TAG) ENTRY_T(c07_genidx_first, TAG)
+#ifndef ONLY_GENIDX
 ENTRY_T(c07_generators, TAG)
 ENTRY_T(c07_hat, TAG)
 ENTRY_T(c07_bracket, TAG)
 ENTRY_T(c07_inner, TAG)
+#endif
 HX_MAIN
